@@ -13,6 +13,10 @@ models are written from the property statement with plain ints:
 * PulseSynchronizer   pulse ledger: each active input edge with i=1 is one pending pulse; each active output edge
                       at which `o` is sampled high answers the oldest pending pulse; none spurious, none lost,
                       `o` changes at active output edges only
+
+The same graphs are explored for the primitives as lowered by every vendor platform that overrides them
+(XilinxPlatform with the Vivado / ISE / Symbiflow / Xray toolchains, AlteraPlatform with Quartus / Mistral); vendor
+cells are replaced by behavioural models while elaborating (vf/gen/c17_platforms.py).
 """
 from ..core.pool import pmap, rotate
 from ..explore.bfs import explore, replay_path
@@ -420,7 +424,7 @@ def configs(rep):
                             if q and edge == "neg" and (dom == "none" or stages == 4):
                                 continue
                             # thorough: the largest lines (width*stages = 12) on posedge domains, extreme init values only
-                            if width * stages >= 12 and (edge == "neg" or init == 1):
+                            if width * stages >= 12 and (edge == "neg" or init == 1 or signed or (width == 3 and init == 0)):
                                 continue
                             # reset_less flops in an asynchronously reset domain: kept to the smaller sizes (while the
                             # simulator clocks them on the reset edge the diverged product is many times larger)
